@@ -438,12 +438,12 @@ Proof.
   - destruct H as [l [-> Hl]]. rewrite <- Hl. apply same_enforce_filter_refl.
 Qed.
 
-Lemma mon_step_model c types m st cl :
+Lemma auth_step_model c types m st cl :
   sim m st -> swf st ->
-  mon_step m (cl, snd (step c st cl), observe types (fst (step c st cl))) = true /\
+  auth_step m (cl, snd (step c st cl), observe types (fst (step c st cl))) = true /\
   sim (mon_next m (cl, snd (step c st cl), observe types (fst (step c st cl)))) (fst (step c st cl)).
 Proof.
-  intros [Sm [Sd [Sr Sn]]] [W N]. unfold mon_step, mon_next, sim. rewrite Sm, Sd, Sr, Sn.
+  intros [Sm [Sd [Sr Sn]]] [W N]. unfold auth_step, mon_next, sim. rewrite Sm, Sd, Sr, Sn.
   destruct cl; cbn [step].
   - (* Construct *)
     destruct (s_deployed st) eqn:D; cbn [negb fst snd].
@@ -484,15 +484,6 @@ Lemma model_items_cons c types st cl r :
   = (cl, snd (step c st cl), observe types (fst (step c st cl))) :: model_items c types (fst (step c st cl)) r.
 Proof. cbn [model_items]. destruct (step c st cl); reflexivity. Qed.
 
-Lemma monitor_accepts c types cs : forall m st i, sim m st -> swf st ->
-  mon_from m (model_items c types st cs) i = 0%N.
-Proof.
-  induction cs as [|cl r IH]; intros m st i S W; [reflexivity|].
-  rewrite model_items_cons. cbn [mon_from].
-  destruct (mon_step_model c types m st cl S W) as [H1 H2]. rewrite H1.
-  apply IH; [exact H2|apply swf_step; exact W].
-Qed.
-
 (* the diff of the model with itself is empty *)
 Lemma rule_eqb_refl r : rule_eqb r r = true. Proof. apply rule_eqb_eq. reflexivity. Qed.
 Lemma outcome_eqb_refl o : outcome_eqb o o = true.
@@ -524,8 +515,3 @@ Proof.
   rewrite outcome_eqb_refl, observe_types, obs_eqb_refl. cbn [andb]. apply IH.
 Qed.
 
-Theorem check_accepts_model c types cs : check (observe_model c types cs) = (0%N, 0%N, 0%N).
-Proof.
-  unfold check, observe_model. cbn [fst snd]. rewrite diff_accepts.
-  rewrite (monitor_accepts c types cs mstate0 init 0%N sim_init swf_init). reflexivity.
-Qed.
